@@ -1762,8 +1762,92 @@ def grid_points_e(s1, s2, K, j, c, d):
             and xe(s2, K, s1.b) == c * xe(s1, K, s1.b) + d and xr(s2, K, s1.n - s1.b) == c * xr(s1, K, s1.n - s1.b) + d)
 
 
-# (An equivariance lemma for the ExpFixedRFA closed form was tried: the blend identities al*[..] + be*(t + (1-t)) are beyond the
-# solver's nonlinear reasoning within the budgets used here; C07's change-of-units clause stays BOUNDED for ExpFixedRFA.)
+# ---- C07: change of units of the values for ExpFixedRFA.  The two blends are affine in (y0, y1) with weights that sum to one
+# only because t + u == 1 for t = (x - x0)/(x1 - x0), u = (x1 - x)/(x1 - x0): that fact is a proof step of its own (it needs
+# x0 != x1, i.e. the ordering of the abscissae), after which every piece is a polynomial identity in which the power terms are
+# atoms (the abscissae, hence the bases and exponents of the powers, are the same in both objects).
+
+LEYE = 'lemma:rfa.exp_fixed.equivariance_y'
+contract(LEYE, params=dict(s1=Obj(EXPF), s2=Obj(EXPF), al=Real, be=Real, K=Int, j=Int), lemma=True, no_rt=True)
+
+
+def tt(x, x0, x1):
+    return (x - x0) / (x1 - x0)
+
+
+def uu(x, x0, x1):
+    return (x1 - x) / (x1 - x0)
+
+
+@requires(LEYE)
+def leye_pre(s1, s2, al, be, K, j):
+    return (expf_pre(s1) and expf_pre(s2) and same_setup_e(s1, s2) and interior(s1, K, j)
+            and forall(range(len(s1.x)), lambda i: s2.y[i] == al * s1.y[i] + be and s2.x[i] == s1.x[i]))
+
+
+@hint(LEYE, when='entry')
+def leye_h_xr(s1, s2, al, be, K, j):
+    return (xr(s1, K, s1.n - s1.b) == (xe(s1, K, s1.n - s1.b) if s1.b >= 1 else xe(s1, K + 1, 0))
+            and xr(s2, K, s1.n - s1.b) == (xe(s2, K, s1.n - s1.b) if s1.b >= 1 else xe(s2, K + 1, 0)))
+
+
+@hint(LEYE, when='entry')
+def leye_h_order(s1, s2, al, be, K, j):
+    return expf_order(s1, K)
+
+
+@hint(LEYE, when='entry')
+def leye_h_order_j(s1, s2, al, be, K, j):
+    return lbe_h_order_j(s1, K, j)
+
+
+@hint(LEYE, when='entry')
+def leye_h_grid(s1, s2, al, be, K, j):
+    return (grid_points_e(s1, s2, K, j, 1, 0)
+            and ye(s2, K) == al * ye(s1, K) + be and ye(s2, K - 1) == al * ye(s1, K - 1) + be and ye(s2, K + 1) == al * ye(s1, K + 1) + be)
+
+
+@hint(LEYE, when='entry')
+def leye_h_borders(s1, s2, al, be, K, j):
+    return z0(s2, K) == al * z0(s1, K) + be and z0(s2, K + 1) == al * z0(s1, K + 1) + be
+
+
+@hint(LEYE, when='entry')
+def leye_h_breaks(s1, s2, al, be, K, j):
+    return zlb(s2, K) == al * zlb(s1, K) + be and zrb(s2, K) == al * zrb(s1, K) + be
+
+
+@hint(LEYE, when='entry')
+def leye_h_unit(s1, s2, al, be, K, j):
+    """the two weights of a blend sum to one (needs distinct end points: j inside the blend piece)"""
+    return (implies(s1.b <= j and j < s1.a_l,
+                    uu(xe(s1, K, j), xe(s1, K, s1.b), xe(s1, K, s1.a_l)) == 1 - tt(xe(s1, K, j), xe(s1, K, s1.b), xe(s1, K, s1.a_l)))
+            and implies(s1.n - s1.a_r <= j and j < s1.n - s1.b,
+                        uu(xe(s1, K, j), xe(s1, K, s1.n - s1.a_r), xr(s1, K, s1.n - s1.b))
+                        == 1 - tt(xe(s1, K, j), xe(s1, K, s1.n - s1.a_r), xr(s1, K, s1.n - s1.b))))
+
+
+@hint(LEYE, when='entry')
+def leye_h_linear_pieces(s1, s2, al, be, K, j):
+    return fe1(s2, K, j) == al * fe1(s1, K, j) + be and fe5(s2, K, j) == al * fe5(s1, K, j) + be
+
+
+@hint(LEYE, when='entry')
+def leye_h_blend_left(s1, s2, al, be, K, j):
+    return implies(s1.b <= j and j < s1.a_l, fe2(s2, K, j) == al * fe2(s1, K, j) + be)
+
+
+@hint(LEYE, when='entry')
+def leye_h_blend_right(s1, s2, al, be, K, j):
+    return implies(s1.n - s1.a_r <= j and j < s1.n - s1.b, fe4(s2, K, j) == al * fe4(s1, K, j) + be)
+
+
+@ensures(LEYE)
+def leye_commutes(s1, s2, al, be, K, j):
+    """C07: y -> al*y + be before recreation = the same map applied to the recreated values, for every real al, be and every
+    exponent (ExpFixedRFA is an affine map of the averages whose weights sum to one)"""
+    return fe(s2, K, j) == al * fe(s1, K, j) + be
+
 
 LLE = 'lemma:rfa.exp_fixed.locality'
 contract(LLE, params=dict(s1=Obj(EXPF), s2=Obj(EXPF), K=Int, j=Int), lemma=True, no_rt=True)
@@ -2498,3 +2582,366 @@ def llx_h_pieces(s1, s2, K, j):
 def llx_local(s1, s2, K, j):
     """C07: a recreated value of an interval reads only that interval's average and two neighbours on each side"""
     return fea(s2, K, j) == fea(s1, K, j)
+
+
+# ---- C07: change of units of the time axis for ExpFixedRFA: x -> c*x + d (c > 0).  Every piece reads the abscissae only through
+# the ratios t = (x - x0)/(x1 - x0), u = (x1 - x)/(x1 - x0), which the map leaves unchanged when x0 != x1; each piece is therefore
+# considered on its own range of j, where its end points are distinct.
+
+LEXE = 'lemma:rfa.exp_fixed.equivariance_x'
+contract(LEXE, params=dict(s1=Obj(EXPF), s2=Obj(EXPF), c=Real, d=Real, K=Int, j=Int), lemma=True, no_rt=True)
+
+
+def ratios_kept(x, x0, x1, c, d):
+    return (tt(c * x + d, c * x0 + d, c * x1 + d) == tt(x, x0, x1) and uu(c * x + d, c * x0 + d, c * x1 + d) == uu(x, x0, x1))
+
+
+def x_b(s, K):
+    return xe(s, K, s.b)
+
+
+def x_al(s, K):
+    return xe(s, K, s.a_l)
+
+
+def x_ar(s, K):
+    return xe(s, K, s.n - s.a_r)
+
+
+def x_nb(s, K):
+    return xr(s, K, s.n - s.b)
+
+
+@requires(LEXE)
+def lexe_pre(s1, s2, c, d, K, j):
+    return (expf_pre(s1) and expf_pre(s2) and same_setup_e(s1, s2) and interior(s1, K, j) and c > 0
+            and forall(range(len(s1.x)), lambda i: s2.y[i] == s1.y[i] and s2.x[i] == c * s1.x[i] + d))
+
+
+@hint(LEXE, when='entry')
+def lexe_h_xr(s1, s2, c, d, K, j):
+    return (xr(s1, K, s1.n - s1.b) == (xe(s1, K, s1.n - s1.b) if s1.b >= 1 else xe(s1, K + 1, 0))
+            and xr(s2, K, s1.n - s1.b) == (xe(s2, K, s1.n - s1.b) if s1.b >= 1 else xe(s2, K + 1, 0)))
+
+
+@hint(LEXE, when='entry')
+def lexe_h_order(s1, s2, c, d, K, j):
+    return expf_order(s1, K)
+
+
+@hint(LEXE, when='entry')
+def lexe_h_order_j(s1, s2, c, d, K, j):
+    return lbe_h_order_j(s1, K, j)
+
+
+@hint(LEXE, when='entry')
+def lexe_h_grid(s1, s2, c, d, K, j):
+    return (grid_points_e(s1, s2, K, j, c, d) and ye(s2, K) == ye(s1, K) and ye(s2, K - 1) == ye(s1, K - 1) and ye(s2, K + 1) == ye(s1, K + 1))
+
+
+def same_ratios(p2, q2, r2, p1, q1, r1):
+    return tt(p2, q2, r2) == tt(p1, q1, r1) and uu(p2, q2, r2) == uu(p1, q1, r1)
+
+
+@hint(LEXE, when='entry')
+def lexe_h_ratio_borders(s1, s2, c, d, K, j):
+    return (same_ratios(xe(s2, K, 0), x_ar(s2, K - 1), x_al(s2, K), xe(s1, K, 0), x_ar(s1, K - 1), x_al(s1, K))
+            and same_ratios(xe(s2, K + 1, 0), x_ar(s2, K), x_al(s2, K + 1), xe(s1, K + 1, 0), x_ar(s1, K), x_al(s1, K + 1)))
+
+
+@hint(LEXE, when='entry')
+def lexe_h_borders(s1, s2, c, d, K, j):
+    return z0(s2, K) == z0(s1, K) and z0(s2, K + 1) == z0(s1, K + 1)
+
+
+@hint(LEXE, when='entry')
+def lexe_h_ratio_breaks(s1, s2, c, d, K, j):
+    return (same_ratios(x_b(s2, K), xe(s2, K, 0), x_al(s2, K), x_b(s1, K), xe(s1, K, 0), x_al(s1, K))
+            and same_ratios(x_nb(s2, K), x_ar(s2, K), xe(s2, K + 1, 0), x_nb(s1, K), x_ar(s1, K), xe(s1, K + 1, 0)))
+
+
+@hint(LEXE, when='entry')
+def lexe_h_breaks(s1, s2, c, d, K, j):
+    return zlb(s2, K) == zlb(s1, K) and zrb(s2, K) == zrb(s1, K)
+
+
+@hint(LEXE, when='entry')
+def lexe_h_ratio_pieces(s1, s2, c, d, K, j):
+    return (implies(j < s1.b, same_ratios(xe(s2, K, j), xe(s2, K, 0), x_b(s2, K), xe(s1, K, j), xe(s1, K, 0), x_b(s1, K)))
+            and implies(s1.b <= j and j < s1.a_l, same_ratios(xe(s2, K, j), x_b(s2, K), x_al(s2, K), xe(s1, K, j), x_b(s1, K), x_al(s1, K)))
+            and implies(s1.n - s1.a_r <= j and j < s1.n - s1.b,
+                        same_ratios(xe(s2, K, j), x_ar(s2, K), x_nb(s2, K), xe(s1, K, j), x_ar(s1, K), x_nb(s1, K)))
+            and implies(s1.n - s1.b <= j, same_ratios(xe(s2, K, j), x_nb(s2, K), xe(s2, K + 1, 0), xe(s1, K, j), x_nb(s1, K), xe(s1, K + 1, 0))))
+
+
+@hint(LEXE, when='entry')
+def lexe_h_pieces(s1, s2, c, d, K, j):
+    return (implies(j < s1.b, fe1(s2, K, j) == fe1(s1, K, j))
+            and implies(s1.b <= j and j < s1.a_l, fe2(s2, K, j) == fe2(s1, K, j))
+            and implies(s1.n - s1.a_r <= j and j < s1.n - s1.b, fe4(s2, K, j) == fe4(s1, K, j))
+            and implies(s1.n - s1.b <= j, fe5(s2, K, j) == fe5(s1, K, j)))
+
+
+@ensures(LEXE)
+def lexe_commutes(s1, s2, c, d, K, j):
+    """C07: x -> c*x + d (c > 0) before recreation: the same values on the mapped grid, for every exponent"""
+    return fe(s2, K, j) == fe(s1, K, j) and xe(s2, K, j) == c * xe(s1, K, j) + d
+
+
+# ---- C07: change of units of the time axis for LinearAdaptiveRFA: the windows do not read the abscissae at all, the pieces read
+# them through ratios only
+
+LEXA = 'lemma:rfa.linear_adaptive.equivariance_x'
+contract(LEXA, params=dict(s1=Obj(LINA), s2=Obj(LINA), c=Real, d=Real, K=Int, j=Int), lemma=True, no_rt=True)
+
+
+@requires(LEXA)
+def lexa_pre(s1, s2, c, d, K, j):
+    return (lina_wf(s1) and lina_wf(s2) and same_setup_a(s1, s2) and interior(s1, K, j) and c > 0 and 2 <= K and K <= len(s1.x) - 2
+            and forall(range(len(s1.x)), lambda i: s2.y[i] == s1.y[i] and s2.x[i] == c * s1.x[i] + d))
+
+
+@hint(LEXA, when='entry')
+def lexa_h_averages(s1, s2, c, d, K, j):
+    return (ye(s2, K - 2) == ye(s1, K - 2) and ye(s2, K - 1) == ye(s1, K - 1) and ye(s2, K) == ye(s1, K)
+            and ye(s2, K + 1) == ye(s1, K + 1) and ye(s2, K + 2) == ye(s1, K + 2))
+
+
+@hint(LEXA, when='entry')
+def lexa_h_jumps(s1, s2, c, d, K, j):
+    return (jr(s2, K) == jr(s1, K) and jl(s2, K) == jl(s1, K) and jr(s2, K - 1) == jr(s1, K - 1) and jl(s2, K - 1) == jl(s1, K - 1)
+            and jr(s2, K + 1) == jr(s1, K + 1) and jl(s2, K + 1) == jl(s1, K + 1))
+
+
+@hint(LEXA, when='entry')
+def lexa_h_windows(s1, s2, c, d, K, j):
+    return (wl(s2, K) == wl(s1, K) and wr(s2, K) == wr(s1, K) and wr(s2, K - 1) == wr(s1, K - 1) and wl(s2, K + 1) == wl(s1, K + 1))
+
+
+@hint(LEXA, when='entry')
+def lexa_h_window_bounds(s1, s2, c, d, K, j):
+    return lba_h_windows(s1, K, j)
+
+
+@hint(LEXA, when='entry')
+def lexa_h_order(s1, s2, c, d, K, j):
+    return lba_h_order(s1, K, j)
+
+
+@hint(LEXA, when='entry')
+def lexa_h_order_j(s1, s2, c, d, K, j):
+    return lba_h_order_j(s1, K, j)
+
+
+def x_pl(s, K):
+    """plateau end of interval K-1 (start of the transition into interval K)"""
+    return xl(s, K, wr(s, K - 1))
+
+
+def x_wla(s, K):
+    return xr(s, K, wl(s, K))
+
+
+def x_wra(s, K):
+    return xr(s, K, s.n - wr(s, K))
+
+
+@hint(LEXA, when='entry')
+def lexa_h_grid(s1, s2, c, d, K, j):
+    return (xe(s2, K, j) == c * xe(s1, K, j) + d and xe(s2, K, 0) == c * xe(s1, K, 0) + d and xe(s2, K + 1, 0) == c * xe(s1, K + 1, 0) + d
+            and xr(s2, K, j) == c * xr(s1, K, j) + d and x_wla(s2, K) == c * x_wla(s1, K) + d and x_wra(s2, K) == c * x_wra(s1, K) + d
+            and x_pl(s2, K) == c * x_pl(s1, K) + d and x_pl(s2, K + 1) == c * x_pl(s1, K + 1) + d and x_wla(s2, K + 1) == c * x_wla(s1, K + 1) + d)
+
+
+@hint(LEXA, when='entry')
+def lexa_h_distinct(s1, s2, c, d, K, j):
+    return (implies(wr(s1, K - 1) >= 1 or wl(s1, K) >= 1, x_pl(s1, K) < x_wla(s1, K))
+            and implies(wr(s1, K) >= 1 or wl(s1, K + 1) >= 1, x_pl(s1, K + 1) < x_wla(s1, K + 1)))
+
+
+@hint(LEXA, when='entry')
+def lexa_h_ratio_borders(s1, s2, c, d, K, j):
+    return (implies(wr(s1, K - 1) >= 1 or wl(s1, K) >= 1,
+                    same_ratios(xe(s2, K, 0), x_pl(s2, K), x_wla(s2, K), xe(s1, K, 0), x_pl(s1, K), x_wla(s1, K)))
+            and implies(wr(s1, K) >= 1 or wl(s1, K + 1) >= 1,
+                        same_ratios(xe(s2, K + 1, 0), x_pl(s2, K + 1), x_wla(s2, K + 1), xe(s1, K + 1, 0), x_pl(s1, K + 1), x_wla(s1, K + 1))))
+
+
+@hint(LEXA, when='entry')
+def lexa_h_borders(s1, s2, c, d, K, j):
+    return z0a(s2, K) == z0a(s1, K) and z0a(s2, K + 1) == z0a(s1, K + 1) and ba(s2, K) == ba(s1, K)
+
+
+@hint(LEXA, when='entry')
+def lexa_h_ratio_pieces(s1, s2, c, d, K, j):
+    return (implies(j < wl(s1, K), same_ratios(xe(s2, K, j), xe(s2, K, 0), x_wla(s2, K), xe(s1, K, j), xe(s1, K, 0), x_wla(s1, K)))
+            and implies(j > s1.n - wr(s1, K), same_ratios(xr(s2, K, j), x_wra(s2, K), xe(s2, K + 1, 0), xr(s1, K, j), x_wra(s1, K), xe(s1, K + 1, 0))))
+
+
+@hint(LEXA, when='entry')
+def lexa_h_pieces(s1, s2, c, d, K, j):
+    return (implies(j < wl(s1, K), fal(s2, K, j) == fal(s1, K, j)) and implies(j > s1.n - wr(s1, K), far(s2, K, j) == far(s1, K, j)))
+
+
+@ensures(LEXA)
+def lexa_commutes(s1, s2, c, d, K, j):
+    """C07: x -> c*x + d (c > 0) before recreation with LinearAdaptiveRFA: same values on the mapped grid (intervals with two neighbours on each side)"""
+    return fa(s2, K, j) == fa(s1, K, j) and xe(s2, K, j) == c * xe(s1, K, j) + d
+
+
+# ---- C07: change of units of the values for ExpAdaptiveRFA (windows as in LinearAdaptiveRFA: ratios of absolute jumps; blends as
+# in ExpFixedRFA: weights that sum to one)
+
+LEAX = 'lemma:rfa.exp_adaptive.equivariance_y'
+contract(LEAX, params=dict(s1=Obj(EXPA), s2=Obj(EXPA), al=Real, be=Real, K=Int, j=Int), lemma=True, no_rt=True)
+
+
+@requires(LEAX)
+def leax_pre(s1, s2, al, be, K, j):
+    return (expa_wf(s1) and expa_wf(s2) and same_setup_x(s1, s2) and interior(s1, K, j) and al != 0 and 2 <= K and K <= len(s1.x) - 2
+            and forall(range(len(s1.x)), lambda i: s2.y[i] == al * s1.y[i] + be and s2.x[i] == s1.x[i]))
+
+
+@hint(LEAX, when='entry')
+def leax_h_averages(s1, s2, al, be, K, j):
+    return lea_h_averages(s1, s2, al, be, K, j)
+
+
+@hint(LEAX, when='entry')
+def leax_h_jumps(s1, s2, al, be, K, j):
+    return lea_h_jumps(s1, s2, al, be, K, j)
+
+
+@hint(LEAX, when='entry')
+def leax_h_ratios(s1, s2, al, be, K, j):
+    return lea_h_ratios(s1, s2, al, be, K, j)
+
+
+@hint(LEAX, when='entry')
+def leax_h_windows(s1, s2, al, be, K, j):
+    return (wl(s2, K) == wl(s1, K) and wr(s2, K) == wr(s1, K) and wr(s2, K - 1) == wr(s1, K - 1) and wl(s2, K + 1) == wl(s1, K + 1)
+            and bl(s2, K) == bl(s1, K) and br(s2, K) == br(s1, K))
+
+
+@hint(LEAX, when='entry')
+def leax_h_window_bounds(s1, s2, al, be, K, j):
+    return lbx_h_windows(s1, K, j)
+
+
+@hint(LEAX, when='entry')
+def leax_h_order(s1, s2, al, be, K, j):
+    return lbx_h_order(s1, K, j)
+
+
+@hint(LEAX, when='entry')
+def leax_h_order_j(s1, s2, al, be, K, j):
+    return lbx_h_order_j(s1, K, j)
+
+
+@hint(LEAX, when='entry')
+def leax_h_grid(s1, s2, al, be, K, j):
+    return llx_h_grid(s1, s2, K, j)
+
+
+@hint(LEAX, when='entry')
+def leax_h_borders(s1, s2, al, be, K, j):
+    return z0a(s2, K) == al * z0a(s1, K) + be and z0a(s2, K + 1) == al * z0a(s1, K + 1) + be
+
+
+@hint(LEAX, when='entry')
+def leax_h_breaks(s1, s2, al, be, K, j):
+    return zlba(s2, K) == al * zlba(s1, K) + be and zrba(s2, K) == al * zrba(s1, K) + be
+
+
+@hint(LEAX, when='entry')
+def leax_h_unit(s1, s2, al, be, K, j):
+    return (implies(bl(s1, K) <= j and j < wl(s1, K),
+                    uu(xe(s1, K, j), xr(s1, K, bl(s1, K)), xr(s1, K, wl(s1, K))) == 1 - tt(xe(s1, K, j), xr(s1, K, bl(s1, K)), xr(s1, K, wl(s1, K))))
+            and implies(s1.n - wr(s1, K) <= j and j < s1.n - br(s1, K),
+                        uu(xe(s1, K, j), xr(s1, K, s1.n - wr(s1, K)), xr(s1, K, s1.n - br(s1, K)))
+                        == 1 - tt(xe(s1, K, j), xr(s1, K, s1.n - wr(s1, K)), xr(s1, K, s1.n - br(s1, K)))))
+
+
+def x_bl(s, K):
+    return xr(s, K, bl(s, K))
+
+
+def x_wl(s, K):
+    return xr(s, K, wl(s, K))
+
+
+def x_wr(s, K):
+    return xr(s, K, s.n - wr(s, K))
+
+
+def x_br(s, K):
+    return xr(s, K, s.n - br(s, K))
+
+
+@hint(LEAX, when='entry')
+def leax_h_abscissae(s1, s2, al, be, K, j):
+    """the abscissae the pieces read, in the second object, are those of the first (congruence only)"""
+    return (x_bl(s2, K) == x_bl(s1, K) and x_wl(s2, K) == x_wl(s1, K) and x_wr(s2, K) == x_wr(s1, K) and x_br(s2, K) == x_br(s1, K)
+            and s2.exp == s1.exp)
+
+
+@hint(LEAX, when='entry')
+def leax_h_unfold2(s1, s2, al, be, K, j):
+    """the pieces of the second object written over the abscissae of the first (unfolding and congruence, no arithmetic)"""
+    return (fa1(s2, K, j) == lf(xe(s1, K, j), xe(s1, K, 0), z0a(s2, K), x_bl(s1, K), zlba(s2, K))
+            and fa2(s2, K, j) == lexy(xe(s1, K, j), x_bl(s1, K), zlba(s2, K), x_wl(s1, K), ye(s2, K), s1.exp)
+            and fa4(s2, K, j) == elin(xe(s1, K, j), x_wr(s1, K), ye(s2, K), x_br(s1, K), zrba(s2, K), s1.exp)
+            and fa5(s2, K, j) == lf(xe(s1, K, j), x_br(s1, K), zrba(s2, K), xe(s1, K + 1, 0), z0a(s2, K + 1)))
+
+
+@hint(LEAX, when='entry')
+def leax_h_unfold1(s1, s2, al, be, K, j):
+    return (fa1(s1, K, j) == lf(xe(s1, K, j), xe(s1, K, 0), z0a(s1, K), x_bl(s1, K), zlba(s1, K))
+            and fa2(s1, K, j) == lexy(xe(s1, K, j), x_bl(s1, K), zlba(s1, K), x_wl(s1, K), ye(s1, K), s1.exp)
+            and fa4(s1, K, j) == elin(xe(s1, K, j), x_wr(s1, K), ye(s1, K), x_br(s1, K), zrba(s1, K), s1.exp)
+            and fa5(s1, K, j) == lf(xe(s1, K, j), x_br(s1, K), zrba(s1, K), xe(s1, K + 1, 0), z0a(s1, K + 1)))
+
+
+@hint(LEAX, when='entry')
+def leax_h_affine_linear(s1, s2, al, be, K, j):
+    """arithmetic only: a straight line through affinely mapped end values is the affinely mapped straight line"""
+    return (lf(xe(s1, K, j), xe(s1, K, 0), al * z0a(s1, K) + be, x_bl(s1, K), al * zlba(s1, K) + be)
+            == al * lf(xe(s1, K, j), xe(s1, K, 0), z0a(s1, K), x_bl(s1, K), zlba(s1, K)) + be
+            and lf(xe(s1, K, j), x_br(s1, K), al * zrba(s1, K) + be, xe(s1, K + 1, 0), al * z0a(s1, K + 1) + be)
+            == al * lf(xe(s1, K, j), x_br(s1, K), zrba(s1, K), xe(s1, K + 1, 0), z0a(s1, K + 1)) + be)
+
+
+@hint(LEAX, when='entry')
+def leax_h_affine_left(s1, s2, al, be, K, j):
+    """arithmetic only: the same for the linear/power blend (weights sum to one)"""
+    return implies(bl(s1, K) <= j and j < wl(s1, K),
+                   lexy(xe(s1, K, j), x_bl(s1, K), al * zlba(s1, K) + be, x_wl(s1, K), al * ye(s1, K) + be, s1.exp)
+                   == al * lexy(xe(s1, K, j), x_bl(s1, K), zlba(s1, K), x_wl(s1, K), ye(s1, K), s1.exp) + be)
+
+
+@hint(LEAX, when='entry')
+def leax_h_affine_right(s1, s2, al, be, K, j):
+    return implies(s1.n - wr(s1, K) <= j and j < s1.n - br(s1, K),
+                   elin(xe(s1, K, j), x_wr(s1, K), al * ye(s1, K) + be, x_br(s1, K), al * zrba(s1, K) + be, s1.exp)
+                   == al * elin(xe(s1, K, j), x_wr(s1, K), ye(s1, K), x_br(s1, K), zrba(s1, K), s1.exp) + be)
+
+
+@hint(LEAX, when='entry')
+def leax_h_linear_pieces(s1, s2, al, be, K, j):
+    return fa1(s2, K, j) == al * fa1(s1, K, j) + be and fa5(s2, K, j) == al * fa5(s1, K, j) + be
+
+
+@hint(LEAX, when='entry')
+def leax_h_blend_left(s1, s2, al, be, K, j):
+    return implies(bl(s1, K) <= j and j < wl(s1, K), fa2(s2, K, j) == al * fa2(s1, K, j) + be)
+
+
+@hint(LEAX, when='entry')
+def leax_h_blend_right(s1, s2, al, be, K, j):
+    return implies(s1.n - wr(s1, K) <= j and j < s1.n - br(s1, K), fa4(s2, K, j) == al * fa4(s1, K, j) + be)
+
+
+@ensures(LEAX)
+def leax_commutes(s1, s2, al, be, K, j):
+    """C07: y -> al*y + be (al != 0) commutes with ExpAdaptiveRFA on intervals with two neighbours on each side, for every exponent"""
+    return fea(s2, K, j) == al * fea(s1, K, j) + be
